@@ -72,6 +72,7 @@ class Runner(object):
         self.last_digest = None
         self.last_change = 0.0
         self.ops_done = 0
+        self.auto_resumed = 0
 
     # ------------------------------------------------------------------ run
     def run(self):
@@ -299,6 +300,15 @@ class Runner(object):
                 return False
         d = observe.quick_states()
         now = sim.vtime()
+        # operator that resumes whatever is left paused once everything
+        # else has drained (bounded number of times)
+        n_auto = self.case.get('auto_resume', 0)
+        if n_auto and self.auto_resumed < n_auto and \
+                any(s == 'PAUSED' for _, s in d[0]):
+            self.auto_resumed += 1
+            self.issue_op({'op': 'resume', 'target': 'paused', 'auto': True,
+                           'via': 'rest', '_i': 1000 + self.auto_resumed})
+            return False
         if d != self.last_digest:
             self.last_digest = d
             self.last_change = now
